@@ -184,3 +184,25 @@ Proof.
 Qed.
 Theorem pre_history_ok ops : forallb refined_op ops = true -> pre_history ops = true -> ok_history ops = true.
 Proof. intros Hp H. apply pre_from_ok; auto. constructor. Qed.
+
+(* lone insert_simplex keeps the complex closed and monotone when, as documented, the faces are there and the value
+   "preserves the monotonicity of the filtration" (is not below the value of a face) *)
+Theorem closed_step_insert K s v :
+  good K = true -> NoDup (keys K) -> norm s <> [] ->
+  (forall t', t' <> [] -> t' <> norm s -> subseq t' (norm s) = true -> exists w', lookup K t' = Some w' /\ w' <= v) ->
+  good (spec_step K (OInsert s v)) = true.
+Proof.
+  intros Hg Hnd Hs Hfaces. apply good_intro; [apply nodup_spec_step; auto|]. apply good_elim in Hg.
+  cbn [spec_step]. intros t w Ht t' Hne Hsub.
+  destruct (list_eq_dec Z.eq_dec t (norm s)) as [->|Hts].
+  - rewrite spec_insert_same in Ht. inversion Ht; subst.
+    destruct (list_eq_dec Z.eq_dec t' (norm s)) as [->|Hts'].
+    + rewrite spec_insert_same. eexists; split; [reflexivity | lia].
+    + rewrite spec_insert_other by auto. destruct (Hfaces t' Hne Hts' Hsub) as (w' & Hw' & Hle).
+      exists w'. split; auto. destruct (lookup K (norm s)) as [w0|] eqn:E0; auto.
+      destruct (Hg _ _ E0 t' Hne Hsub) as (w'' & Hw'' & Hle''). rewrite Hw' in Hw''. inversion Hw''; subst. lia.
+  - rewrite spec_insert_other in Ht by auto. destruct (Hg _ _ Ht t' Hne Hsub) as (w' & Hw' & Hle).
+    destruct (list_eq_dec Z.eq_dec t' (norm s)) as [->|Hts'].
+    + rewrite spec_insert_same, Hw'. eexists; split; [reflexivity | lia].
+    + rewrite spec_insert_other by auto. eauto.
+Qed.
